@@ -346,8 +346,9 @@ def rule_exhaust(ctx, funcs=None, R="R-C04-EXHAUST"):
         loops = []
         x = node
         while id(x) in par:
+          c_ = x
           x = par[id(x)]
-          if isinstance(x, (ast.For, ast.While)):
+          if isinstance(x, (ast.For, ast.While)) and not any(c_ is o_ for o_ in x.orelse):
             loops.append(x)
         if not loops:
           continue
@@ -377,8 +378,9 @@ def rule_exhaust(ctx, funcs=None, R="R-C04-EXHAUST"):
         x = node
         inner_def = False
         while id(x) in par:
+          c_ = x
           x = par[id(x)]
-          if isinstance(x, (ast.For, ast.While)):
+          if isinstance(x, (ast.For, ast.While)) and not any(c_ is o_ for o_ in x.orelse):
             loops.append(x)
           if isinstance(x, ast.FunctionDef) and x is not fn:
             inner_def = True
@@ -516,16 +518,21 @@ def rule_lehman(ctx):
   info = loops[0]
   vis = info["visits"][0]
   cf = sym.mk("call", P("lit", "ntheory_util:ContinuedFraction"), p0, q0)
-  oki = as_poly(vis["iter"]) == cf
+  oki = all(as_poly(v_["iter"]) == cf for v_ in info["visits"])
   ctx.record(R, f.where, "convergents of p_0 / (n // p_0)", oki, "ContinuedFraction(p_0, q_0), q_0 = n // p_0" if oki else "convergents are taken of %r" % (vis["iter"],))
-  el = sym.mk("idx", cf, vis["k"])
-  u, v = sym.mk("idx", el, Poly.const(1)), sym.mk("idx", el, Poly.const(2))
-  d = u * v * n * 4
+  # the loop may be walked once per way of reaching it (a conditional before it): one element symbol per visit
+  def uvd(e):
+    ks = [v_["k"] for v_ in info["visits"]]
+    used = [k_ for k_ in ks if any(k_ == Poly.atom(t_) for x_ in e.data["value"].items if isinstance(x_, Poly) for t_ in x_.all_atoms())] or ks[:1]
+    el_ = sym.mk("idx", cf, used[0])
+    u_, v_ = sym.mk("idx", el_, Poly.const(1)), sym.mk("idx", el_, Poly.const(2))
+    return u_, v_, u_ * v_ * n * 4
   rets = [e for e in w.events if e.kind == "return" and e.node is not None and isinstance(e.data["value"], Seq) and e.data["value"].items]
   probs = []
   if not rets:
     probs.append("no factor-producing return")
   for e in rets:
+    u, v, d = uvd(e)
     # read a, b, g off the returned value [g, n // g] (temporaries and their names do not matter): g = gcd(a + b, n), b = isqrt(a*a - d)
     g = as_poly(e.data["value"].items[0]) if not isinstance(e.data["value"].items[0], (Seq, tuple)) else None
     a = b = None
@@ -564,19 +571,28 @@ def rule_lehman(ctx):
   # the admissibility bound, as a value: whatever |u*q_0 - v*p_0| is compared with on the factor-producing paths
   bvals = []
   for e in rets:
+    u, v, d = uvd(e)
     for f_ in e.facts:
-      if f_[0] == "cmp" and f_[1] == "Lt" and isinstance(f_[2], Poly) and isinstance(f_[3], Poly) and f_[2] == sym.mk("abs", u * q0 - v * p0) and f_[3] not in bvals:
-        bvals.append(f_[3])
-  okb = False
-  for bv_ in bvals:
+      if f_[0] == "cmp" and f_[1] == "Lt" and isinstance(f_[2], Poly) and isinstance(f_[3], Poly) and f_[2] == sym.mk("abs", u * q0 - v * p0) and not any(f_[3] == b_ for b_, _ in bvals):
+        bvals.append((f_[3], e))
+  okb = bool(bvals)
+  for bv_, e in bvals:
     v_ = bv_.as_atom()
+    sh = Poly.const(0)
+    inner = v_
     if v_ is not None and v_.kind == "shl":
       inner = v_.args[0].as_atom()
       sh = v_.args[1]
-      if inner is not None and inner.kind == "pow" and inner.args[1] == sym.mk("tdiv", Poly.const(1), Poly.const(3)):
-        base = inner.args[0].as_atom()
-        if base is not None and base.kind == "shr" and base.args[0] == n and (base.args[1] - sh * 3).is_zero():
-          okb = True
+    good = False
+    if inner is not None and inner.kind == "pow" and inner.args[1] == sym.mk("tdiv", Poly.const(1), Poly.const(3)):
+      base = inner.args[0].as_atom()
+      if base is not None and base.kind == "shr" and base.args[0] == n and (base.args[1] - sh * 3).is_zero():
+        good = True
+      elif sh.is_zero() and inner.args[0] == n:
+        # a shift of zero folded away: only on a path that knows the computed shift is not positive (small n; the root cannot overflow)
+        good = any(f_[0] == "cmp" and f_[1] in ("Lt", "LtE") and isinstance(f_[2], Poly) and isinstance(f_[3], Poly) and f_[3].is_zero() and
+                   any(t_.kind == "bitlen" for t_ in f_[2].all_atoms()) for f_ in e.facts)
+    okb = okb and good
   ctx.record(R, f.where, "bound = (n >> 3s)^(1/3) << s  (about n^(1/3))", okb, "cube root taken on the top bits and scaled back by the same shift" if okb else "bound is not the scaled cube root of n")
 
 
